@@ -134,6 +134,13 @@ Theorem C11_unset_idempotent_single : forall d q ps v up fs now d1 ch1,
 Proof. exact (apply_unset_idempotent_single _). Qed.
 Print Assumptions C11_unset_idempotent_single.
 
+Theorem C11_unset_idempotent_list_partial : forall d q pairs up fs now d1 ch1,
+  plain_pairs pairs -> field_pairs pairs -> pairwise_disjoint (map fst pairs) -> uniq_keys (VDoc d) ->
+  Apply d q [("$unset", VDoc pairs)] up fs now = Ok (d1, ch1) ->
+  exists ch2, Apply d1 q [("$unset", VDoc pairs)] up fs now = Ok (d1, ch2).
+Proof. exact (apply_unset_idempotent_list _). Qed.
+Print Assumptions C11_unset_idempotent_list_partial.
+
 (* without "plain" and "pairwise disjoint" the statement is false of the faithful
    model: a.$[] next to a.1 (resolved paths do not conflict, the array grows),
    and conflicting paths whose first invocation is a no-op (never recorded) *)
